@@ -11,7 +11,8 @@ M1  specs/BagTrain.tla
       iteration (Submit, RunEClass(k) in every order, RunM with reduce_iadd, Assign, NextIter), parameters as version
       tags, in the memory modes Shared and Isolated: ExactlyOncePerMStep, AllContribsAtCurrentVersion,
       HostFreshAfterIter, HandOverFresh;  deviation BAG_RESULT_NOT_ASSIGNED must be refuted in Isolated mode (and
-      is shown to be invisible in Shared mode).
+      is shown to be invisible in Shared mode);  deviation BAG_ESTEP_OUTPUT_REUSED must be refuted
+      (AllContribsAtCurrentVersion in both modes, ExactlyOncePerMStep in Shared mode through the in-place addition).
     specs/PairTree.tla: one iteration of IVectorMachine.fit on a bag as written (e-step per partition, the
       pairwise reduction loop with its odd carry, M-step on its machine, copy-back of the attribute list), 1..64
       partitions, both memory modes, 1..2 iterations: LeavesConserved, EveryLeafExactlyOnce, TreeShape, Shrinks,
@@ -85,8 +86,15 @@ def run(ck):
     bm.run_bagtrain(ck, "deviation:BAG_RESULT_NOT_ASSIGNED:Isolated", scn=small, modes=("Isolated",), kinds=("JFA", "ISV"),
                     iters=(1, 2), max_orders=216, dev=["BAG_RESULT_NOT_ASSIGNED"], invariants=["HostFreshAfterIter"],
                     export=False, expect_violation=True)
-    bm.run_bagtrain(ck, "deviation:BAG_RESULT_NOT_ASSIGNED:Shared(invisible)", scn=small, modes=("Shared",),
+    bm.run_bagtrain(ck, "deviation:BAG_RESULT_NOT_ASSIGNED:Shared(invisible)", scn=small[:4], modes=("Shared",),
                     kinds=("JFA", "ISV"), iters=(1, 2), max_orders=216, dev=["BAG_RESULT_NOT_ASSIGNED"], export=False)
+
+    bm.run_bagtrain(ck, "deviation:BAG_ESTEP_OUTPUT_REUSED:stale", scn=small, modes=("Shared", "Isolated"), kinds=("ISV", "JFA"),
+                    iters=(2,), max_orders=216, dev=["BAG_ESTEP_OUTPUT_REUSED"], invariants=["AllContribsAtCurrentVersion"],
+                    export=False, expect_violation=True)
+    bm.run_bagtrain(ck, "deviation:BAG_ESTEP_OUTPUT_REUSED:double-count", scn=small, modes=("Shared",), kinds=("ISV", "JFA"),
+                    iters=(2,), max_orders=216, dev=["BAG_ESTEP_OUTPUT_REUSED"], invariants=["ExactlyOncePerMStep"],
+                    export=False, expect_violation=True)
 
     r_pt = bm.run_pairtree(ck, "pairtree-1..64", 64, coverage=True)
     tree_recs = list(r_pt.records)
@@ -100,13 +108,15 @@ def run(ck):
                     export=False, expect_violation=True)
     bm.run_pairtree(ck, "deviation:IVECTOR_SIGMA_NOT_COPIED_BACK:Shared(invisible)", 8, modes=("Shared",),
                     dev=["IVECTOR_SIGMA_NOT_COPIED_BACK"], export=False)
+    ck.notes.append("the runs regroup-* explore stage 1 only (em_iterations = 0): the stage-2 actions are not enabled there "
+                    "by construction; they are exercised by em-orders-modes")
     ck.extra["exported"] = {"regroup_scenarios": len(regroup), "regroup_scenarios_with_empty_partitions": len(regroup_empty),
                             "em_behaviours": len(behaviours), "pairtree_behaviours": len(tree_recs)}
 
     # ------------------------------------------------------------------ M2 (a) regrouping
     outcomes = collections.Counter()
-    sample_a = regroup if len(regroup) <= (400 if quick else 6000) else \
-        [r for r in regroup if len(r["y"]) <= 3] + rng.sample([r for r in regroup if len(r["y"]) > 3], 350 if quick else 5500)
+    sample_a = regroup if len(regroup) <= (400 if quick else 8000) else \
+        [r for r in regroup if len(r["y"]) <= 3] + rng.sample([r for r in regroup if len(r["y"]) > 3], 350 if quick else 7500)
     sample_a = sample_a + (regroup_empty if not quick else regroup_empty[:40])
     have_private = hasattr(em.ISVMachine, "_prepare_dask_input")
     if not have_private:
@@ -117,7 +127,7 @@ def run(ck):
             replay_regroup(ck, em, rec, rng, reported, outcomes)
 
     # ------------------------------------------------------------------ M2 (b) ISV / JFA fits
-    chosen = choose_behaviours(behaviours, rng, 360 if quick else 4200)
+    chosen = choose_behaviours(behaviours, rng, 360 if quick else 6500)
     ck.extra["em_behaviours_replayed"] = len(chosen)
     for rec in chosen:
         replay_fit(ck, em, rec, rng, reported, outcomes)
